@@ -384,13 +384,22 @@ func (s *Subscriber) OnSyncFinished() (<-chan SyncFinished, context.CancelFunc) 
 	return cq.Out(), cncl
 }
 
-// RemoveHandler removes a handler for a publisher.
+// RemoveHandler removes a handler for a publisher. A handler that is in use,
+// because a sync of that publisher is running or waiting to run, is not
+// removed: its replacement would have its own locks, and a second sync of the
+// publisher could then run at the same time. Returns true if the handler was
+// removed.
 func (s *Subscriber) RemoveHandler(peerID peer.ID) bool {
 	s.handlersMutex.Lock()
 	defer s.handlersMutex.Unlock()
 
 	// Check for existing handler, remove if found.
-	if _, ok := s.handlers[peerID]; !ok {
+	hnd, ok := s.handlers[peerID]
+	if !ok {
+		return false
+	}
+	if !hnd.idle() {
+		log.Infow("Not removing sync handler that is in use", "peer", peerID)
 		return false
 	}
 
